@@ -30,6 +30,7 @@ def _rules():
         ("an equality decision is read back as written", C07.j5),
         ("no-learning resolver: reason of the flipped decision", C07.j7),
         ("a permanent nogood is stored preprocessed", C07.j10),
+        ("watcher removal selects exactly one watcher", C07.j13),
         ("lazy reasons of reified propagators keep the literal", C09.r7),
         ("the cached inconsistency of a reified propagator is cleared on synchronise", C09.r3),
         ("arithmetic constraint builders mean what they say", C09.r10),
